@@ -418,7 +418,9 @@ impl<'a> VisitMut for Rw<'a> {
         visit_mut::visit_path_mut(self, p);
         if p.leading_colon.is_none() {
             if let Some(f) = first_seg(p) {
-                if f == "crate" {
+                if f == "crate" && p.segments.len() >= 2 && p.segments[1].ident == "code" {
+                    // already rewritten (generated literal constant)
+                } else if f == "crate" {
                     // crate root of the extracted text is the module `code`
                     let rest: Vec<PathSegment> = p.segments.iter().skip(1).cloned().collect();
                     let mut np: Path = parse_quote!(crate::code);
@@ -543,6 +545,19 @@ impl<'a> VisitMut for Rw<'a> {
                             }
                         }
                         _ => {}
+                    }
+                }
+                // N13: String::from_utf8_lossy(x).to_string() -> shim (Cow<str> cannot be specified)
+                if mname == "to_string" && mc.args.is_empty() {
+                    if let Expr::Call(c) = &*mc.receiver {
+                        if let Expr::Path(p) = &*c.func {
+                            if p.path.segments.last().map(|s| s.ident == "from_utf8_lossy").unwrap_or(false) && c.args.len() == 1 {
+                                let a = c.args.first().unwrap().clone();
+                                self.log.push("N13 String::from_utf8_lossy(..).to_string() -> crate::sp::vp_lossy_string(..)".to_string());
+                                *e = parse_quote!(crate::sp::vp_lossy_string(#a));
+                                return;
+                            }
+                        }
                     }
                 }
                 // N10 constructor as function value
@@ -747,24 +762,26 @@ impl<'a> Rw<'a> {
                         parts.push((false, cur));
                     }
                     if ok && parts.iter().any(|p| p.0) {
-                        let mut acc: Option<Expr> = None;
+                        let mut pieces: Vec<Expr> = vec![];
                         for (hole, t) in &parts {
-                            let piece: Expr = if *hole {
+                            if *hole {
                                 let id = format_ident!("{}", t);
-                                parse_quote!(crate::sp::VpAsStr::vp_as_str(&#id))
+                                pieces.push(parse_quote!(&#id));
                             } else {
                                 let l = LitStr::new(t, Span::call_site());
-                                parse_quote!(#l)
-                            };
-                            acc = Some(match acc {
-                                None => piece,
-                                Some(a) => parse_quote!(crate::sp::vp_str_cat(#a, #piece).as_str()),
-                            });
+                                pieces.push(parse_quote!(#l));
+                            }
                         }
-                        // strip the trailing .as_str() by wrapping once more
-                        let a = acc.unwrap();
+                        if pieces.len() == 1 {
+                            pieces.insert(0, parse_quote!(""));
+                        }
+                        let mut acc: Expr = pieces[0].clone();
+                        let n = pieces.len();
+                        for (i, pc) in pieces.iter().enumerate().skip(1) {
+                            acc = if i == n - 1 { parse_quote!(crate::sp::vp_str_cat(#acc, #pc)) } else { parse_quote!(&crate::sp::vp_str_cat(#acc, #pc)) };
+                        }
                         self.log.push(format!("N6 format!({}) -> vp_str_cat chain", toks));
-                        return parse_quote!(crate::sp::vp_string_of(#a));
+                        return acc;
                     }
                 }
             }
